@@ -24,7 +24,7 @@ use std::sync::{Arc, RwLock};
 const STEP_BUDGET: u64 = 200_000;
 
 /// round trip (a): serde JSON export, import, documented repair step
-fn roundtrip_serde(adf: &Adf) -> Adf {
+pub fn roundtrip_serde(adf: &Adf) -> Adf {
     let text = serde_json::to_string(adf).expect("export must work");
     let mut back: Adf = serde_json::from_str(&text).expect("import of an export must work");
     back.fix_import();
@@ -32,7 +32,7 @@ fn roundtrip_serde(adf: &Adf) -> Adf {
 }
 
 /// round trip (b): exactly the encoding of the web service's SimplifiedAdf: everything as strings
-fn roundtrip_dblayer(adf: &Adf) -> Adf {
+pub fn roundtrip_dblayer(adf: &Adf) -> Adf {
     let names: Vec<String> = adf.ordering.names().read().unwrap().clone();
     let mapping: HashMap<String, String> = adf.ordering.mappings().read().unwrap().iter().map(|(k, v)| (k.clone(), v.to_string())).collect();
     let nodes: Vec<(String, String, String)> = adf.bdd.nodes.iter().map(|n| (n.var().0.to_string(), n.lo().0.to_string(), n.hi().0.to_string())).collect();
